@@ -258,11 +258,27 @@ func Evict() {
 	now := time.Now()
 	os.Chtimes(filepath.Join(cacheRoot(), TreeHash()), now, now)
 	sort.Slice(trees, func(i, j int) bool { return trees[i].t.After(trees[j].t) })
+	low := diskLow()
 	for i, t := range trees {
-		if i >= 3 && filepath.Base(t.path) != TreeHash() {
+		if (i >= 3 || low) && filepath.Base(t.path) != TreeHash() {
 			os.RemoveAll(t.path)
 		}
 	}
+	if low {
+		// every shard build leaves its objects in the Go build cache, which Go only trims after days
+		fmt.Fprintln(os.Stderr, "pipeline: less than 25 GiB free: clearing the Go build cache")
+		cmd := exec.Command("go", "clean", "-cache")
+		cmd.Env = append(os.Environ(), "GOFLAGS=-mod=mod", "GOPROXY=off", "GOSUMDB=off", "GOTOOLCHAIN=local")
+		cmd.Run()
+	}
+}
+
+func diskLow() bool {
+	var st syscall.Statfs_t
+	if err := syscall.Statfs(cacheRoot(), &st); err != nil {
+		return false
+	}
+	return st.Bavail*uint64(st.Bsize) < 25<<30
 }
 
 var declRe = regexp.MustCompile(`^(?:func|type|var|const) (?:\([^)]*\) )?(P\d+)`)
